@@ -14,7 +14,7 @@ def check(ctx):
     exe = ctx.compile('hk-shm', 'obj', SRC, engine='cosched')
     def leg(sets, bound, deadline):
         env = dict(os.environ); env['C34_SET'] = sets
-        args = ['--bound', str(bound), '--jobs', str(vlib.NJOBS), '--outdir', vlib.OUT, '--deadline', str(deadline)]
+        args = ['--bound', str(bound), '--jobs', str(min(vlib.NJOBS, 6 if ctx.tier == 'quick' else 12)), '--outdir', vlib.OUT, '--deadline', str(deadline)]
         ctx.run_engine(exe, args, label='obj-%s-b%d' % (sets.replace(',', '+'), bound), timeout=deadline + 600, env=env)
     if ctx.tier == 'quick':
         leg('quick', 2, 45)
